@@ -11,6 +11,7 @@ import Kitoken.Spec.Compose
 import Kitoken.Model.DefCodec
 import Kitoken.Model.Export
 import Kitoken.Spec.Keeps
+import Kitoken.Model.Tiktoken
 namespace Kitoken.Driver
 
 open Kitoken Std
@@ -838,6 +839,30 @@ def handleConvTK (st : State) (args : List String) : String :=
             | some c => s!"{if out.vocab == c.vocab && sameSpecials out.specials c.specials then "OK" else "DIFF"} || HOLDS-NA"
             | none => "OK-NO-SLOT || HOLDS-NA"))
     | _, _, _, _, _ => "BAD-OP"
+  | _ => "BAD-OP"
+
+def fnv64 (data : List UInt8) : UInt64 :=
+  data.foldl (fun h b => (h ^^^ b.toUInt64) * 0x100000001b3) 0xcbf29ce484222325
+
+def hex16 (n : UInt64) : String :=
+  let ds := Nat.toDigits 16 n.toNat
+  String.ofList (List.replicate (16 - ds.length) '0' ++ ds)
+
+/-- Listing of a conversion result: `id:hex;` per vocabulary entry, `|`, `id:hex;` per special. -/
+def convListing (o : Convert.ConvOut) : String :=
+  String.join (o.vocab.map fun (i, b) => s!"{i.toNat}:{toHex b};") ++ "|" ++
+  String.join (o.specials.map fun sp => s!"{sp.id.toNat}:{toHex sp.bytes};")
+
+/-- `LOADTT <data> :: OK <entries> <digest of the listing> | ERR`: the Tiktoken loader from raw bytes. -/
+def handleLoadTT (args : List String) : String :=
+  match args with
+  | [hex] =>
+    match parseHex hex with
+    | some data =>
+      (match Convert.loadTiktoken data with
+        | some o => s!"OK {o.vocab.length} {hex16 (fnv64 (convListing o).toUTF8.toList)} || HOLDS-NA"
+        | none => "ERR || HOLDS-NA")
+    | none => "BAD-OP"
   | _ => "BAD-OP"
 
 /-- `BYTETAB <256 code points> :: OK`: the placeholder characters the implementation maps to bytes 0..255. -/
